@@ -80,6 +80,7 @@ type ExtRouterData struct {
 
 var (
 	errMaxOutEthernetLength = errors.New("the ethernet length is greater than 1500")
+	errExtRouterLength      = errors.New("invalid extended router data length")
 )
 
 func (fs *FlowSample) unmarshal(r io.ReadSeeker) error {
@@ -181,6 +182,11 @@ func (es *ExtSwitchData) unmarshal(r io.Reader) error {
 
 func (er *ExtRouterData) unmarshal(r io.Reader, l uint32) error {
 	var err error
+
+	// address type (4 octets) + IPv4 or IPv6 next hop + source and destination mask
+	if l != 16 && l != 28 {
+		return errExtRouterLength
+	}
 
 	buff := make([]byte, l-8)
 	if err = read(r, &buff); err != nil {
